@@ -54,6 +54,12 @@ def DVal.equal : DVal → DVal → Bool
   | .fresh _, .fresh _ => true
   | _, _ => false
 
+/-- `unchanged` of the branch arm of `insertInspector`: a branch without value is always changed -/
+def optEqual (bv : Option DVal) (nv : DVal) : Bool :=
+  match bv with
+  | some x => x.equal nv
+  | none => false
+
 /-! ### handles and nodes -/
 
 inductive Hd where
@@ -414,8 +420,7 @@ def insertAt (e : Env) : Nat → Hd → Nibs → Nibs → Bytes → Death → Re
         let common := lcpLen key pk
         if common = pk.length ∧ common = key.length then
           let nv := newValue e.ver value
-          let unchanged := match bv with | some x => x.equal nv | none => false
-          .ok (afterInspect stored pre (replaceOldValue d (pre ++ pk) bv) (!unchanged)
+          .ok (afterInspect stored pre (replaceOldValue d (pre ++ pk) bv) (!(optEqual bv nv))
             (.branch none pk (some nv) cs))
         else if common < pk.length then
           match pk.drop common with
@@ -595,32 +600,41 @@ def encValue (H : Bytes → Bytes) (full : Nibs) : DVal → (Bool × Bytes) × L
   | .ref h => ((true, h), [])
   | .fresh data => ((true, H data), [.put (rowKey full (H data)) data])
 
-/-- `commitChild` / the root arm of `commit` for the node behind `h` at path `pre`: the child
-    reference (`none` for nil; hash or inlined encoding otherwise) and the rows written, in order.
-    For the in-memory new nodes `encNew` also returns the encoding itself. -/
+/-- the value part of `newEncodedNode` for a branch -/
+def encOptValue (H : Bytes → Bytes) (full : Nibs) : Option DVal → Option (Bool × Bytes) × List WOp
+  | some v => let r := encValue H full v; (some r.1, r.2)
+  | none => (none, [])
+
+/-- `commitChild(child, prefix)`: the child reference (`none` for the nil handle; a hash for a
+    persisted or cached child; for a new node its hash, after writing its row, when the encoding has
+    at least `H.Length()` bytes, else the encoding itself) and the rows written.  `enc` is the result
+    of encoding the child when it is a new in-memory node. -/
+def kidRef (H : Bytes → Bytes) (q : Nibs) (c : Hd) (enc : Option (Bytes × List WOp)) :
+    Option Bytes × List WOp :=
+  match c with
+  | .none => (none, [])
+  | .persisted h => (some h, [])
+  | _ =>
+    match c.cached with
+    | some h => (some h, [])
+    | none =>
+      match enc with
+      | some (en, w) =>
+        if en.length ≥ hashLen then (some (H en), w ++ [.put (rowKey q (H en)) en])
+        else (some en, w)
+      | none => (none, [])
+
+/-- `newEncodedNode` with the child-store function of `commit` / `commitChild` for the NEW
+    in-memory node behind the handle at path `pre`: its encoding and the rows written, in the order
+    of the code (value row, then child by child the rows of its subtree and its own row). -/
 def encNew (H : Bytes → Bytes) : Hd → Nibs → Option (Bytes × List WOp)
   | .leaf none pk v, pre =>
     let ev := encValue H (pre ++ pk) v
     some (encLeaf pk ev.1.1 ev.1.2, ev.2)
   | .branch none pk bv cs, pre =>
-    let ev : Option (Bool × Bytes) × List WOp :=
-      match bv with
-      | some v => let r := encValue H (pre ++ pk) v; (some r.1, r.2)
-      | none => (none, [])
+    let ev := encOptValue H (pre ++ pk) bv
     let kid (i : Nib) : Option Bytes × List WOp :=
-      match cs i with
-      | .none => (none, [])
-      | .persisted h => (some h, [])
-      | _ =>
-        match (cs i).cached with
-        | some h => (some h, [])
-        | none =>
-          match encNew H (cs i) (pre ++ pk ++ [i]) with
-          | some (enc, w) =>
-            if enc.length ≥ hashLen then
-              (some (H enc), w ++ [.put (rowKey (pre ++ pk ++ [i]) (H enc)) enc])
-            else (some enc, w)
-          | none => (none, [])
+      kidRef H (pre ++ pk ++ [i]) (cs i) (encNew H (cs i) (pre ++ pk ++ [i]))
     some (encBranch pk ev.1 (fun i => (kid i).1),
           ev.2 ++ (List.finRange 16).flatMap (fun i => (kid i).2))
   | .empty none, _ => some ([0], [])
@@ -649,5 +663,170 @@ def commit (H : Bytes → Bytes) (s : St) : Res St :=
         let h := H enc
         .ok { db := applyW s.db (dels ++ w ++ [.put h enc]), root := .persisted h, rootHash := h,
               death := [] }
+
+/-! ### the exported methods -/
+
+structure Cfg where
+  H : Bytes → Bytes
+  dec : Bytes → Option ENode
+  ver : Ver
+
+def Cfg.env (c : Cfg) (s : St) : Env := { H := c.H, dec := c.dec, ver := c.ver, db := s.db }
+
+/-- `NewEmptyTrieDB(db)` on an empty database -/
+def St.init (H : Bytes → Bytes) : St :=
+  { db := [], root := .persisted (H [0]), rootHash := H [0], death := [] }
+
+/-- `Put(key, value)` -/
+def doPut (c : Cfg) (s : St) (k v : Bytes) : Res St :=
+  match insertAt (c.env s) ((toNibs k).length + 1) s.root [] (toNibs k) v s.death with
+  | .ok (h, _, d) => .ok { s with root := h, death := d }
+  | .err => .err
+  | .panic => .panic
+
+/-- `Delete(key)` -/
+def doDel (c : Cfg) (s : St) (k : Bytes) : Res St :=
+  match removeAt (c.env s) ((toNibs k).length + 1) s.root [] (toNibs k) s.death with
+  | .ok (some (h, _), d) => .ok { s with root := h, death := d }
+  | .ok (none, d) => .ok { s with root := .persisted (c.H [0]), rootHash := c.H [0], death := d }
+  | .err => .err
+  | .panic => .panic
+
+/-- `Get(key)` -/
+def doGet (c : Cfg) (s : St) (k : Bytes) : Option Bytes :=
+  lookupMem (c.env s) k s.root [] (toNibs k)
+
+/-- `NewTrieDB(rootHash, db)` over the database of `s` -/
+def reopenAt (s : St) : St :=
+  { db := s.db, root := .persisted s.rootHash, rootHash := s.rootHash, death := [] }
+
+/-! ### operation language of the harness line -/
+
+inductive Op where
+  | put (k v : Bytes)
+  | del (k : Bytes)
+  | get (k : Bytes)
+  | commit
+  | reopen
+  | bad
+deriving Repr
+
+def showOpt : Option Bytes → String
+  | none => "nil"
+  | some b => hex b
+
+def joinWith (sep : String) : List String → String
+  | [] => ""
+  | [a] => a
+  | a :: r => a ++ sep ++ joinWith sep r
+
+/-- one op on the model: new state and observable; `none` state = the op panicked -/
+def stepModel (c : Cfg) (s : St) : Op → Option St × String
+  | .put k v =>
+    (match doPut c s k v with
+      | .ok s' => (some s', "ok") | .err => (some s, "err") | .panic => (none, "panic"))
+  | .del k =>
+    (match doDel c s k with
+      | .ok s' => (some s', "ok") | .err => (some s, "err") | .panic => (none, "panic"))
+  | .get k => (some s, showOpt (doGet c s k))
+  | .commit =>
+    (match commit c.H s with
+      | .ok s' => (some s', toHex s'.rootHash ++ ",eq") | .err => (some s, "err")
+      | .panic => (none, "panic"))
+  | .reopen =>
+    (match commit c.H s with
+      | .ok s' => (some (reopenAt s'), toHex s'.rootHash ++ ",eq") | .err => (some s, "err")
+      | .panic => (none, "panic"))
+  | .bad => (some s, "bad-op")
+
+/-- sorted, duplicate-free insertion (Go: keys of a map, `sort.Strings`) -/
+def insKey (k : Bytes) : List Bytes → List Bytes
+  | [] => [k]
+  | a :: r => if a = k then a :: r else if klt k a then k :: a :: r else a :: insKey k r
+
+def flipLast : Bytes → Bytes
+  | [] => []
+  | [b] => [b ^^^ 1]
+  | a :: r => a :: flipLast r
+
+/-- the keys read back at the end of a line: every key mentioned and three neighbours -/
+def probes (ops : List Op) : List Bytes :=
+  ops.foldl (fun acc op =>
+    let one (k : Bytes) (acc : List Bytes) : List Bytes :=
+      let acc := insKey k acc
+      let acc := if k.isEmpty then acc else insKey (flipLast k) (insKey k.dropLast acc)
+      insKey (k ++ [0]) acc
+    match op with
+    | .put k _ => one k acc
+    | .del k => one k acc
+    | .get k => one k acc
+    | _ => acc) []
+
+/-- the implicit end of a line: `Hash()`, then `Get` of every probe on a fresh instance -/
+def finalModel (c : Cfg) (s : St) (ops : List Op) : String :=
+  match commit c.H s with
+  | .ok s' =>
+    let f := reopenAt s'
+    "F=" ++ toHex s'.rootHash ++ ",eq," ++ joinWith "," ((probes ops).map (fun k => showOpt (doGet c f k)))
+  | .err => "F=err"
+  | .panic => "panic"
+
+def runModelFrom (c : Cfg) (s : St) (all : List Op) : List Op → List String
+  | [] => [finalModel c s all]
+  | op :: r =>
+    match stepModel c s op with
+    | (some s', o) => o :: runModelFrom c s' all r
+    | (none, o) => [o]
+
+def runModel (c : Cfg) (ops : List Op) : List String := runModelFrom c (St.init c.H) ops ops
+
+/-! ### the specification: an ordered map and its Merkle root -/
+
+def stepSpec (ver : Ver) (H : Bytes → Bytes) (m : Entries) : Op → Entries × String
+  | .put k v => (OMap.upsert k v m, "ok")
+  | .del k => (OMap.erase k m, "ok")
+  | .get k => (m, showOpt (OMap.get k m))
+  | .commit => (m, toHex (specRoot ver H m) ++ ",eq")
+  | .reopen => (m, toHex (specRoot ver H m) ++ ",eq")
+  | .bad => (m, "bad-op")
+
+def finalSpec (ver : Ver) (H : Bytes → Bytes) (m : Entries) (ops : List Op) : String :=
+  "F=" ++ toHex (specRoot ver H m) ++ ",eq," ++
+    joinWith "," ((probes ops).map (fun k => showOpt (OMap.get k m)))
+
+def runSpecFrom (ver : Ver) (H : Bytes → Bytes) (m : Entries) (all : List Op) : List Op → List String
+  | [] => [finalSpec ver H m all]
+  | op :: r => let s := stepSpec ver H m op; s.2 :: runSpecFrom ver H s.1 all r
+
+def runSpec (ver : Ver) (H : Bytes → Bytes) (ops : List Op) : List String :=
+  runSpecFrom ver H [] ops ops
+
+/-! ### parsing -/
+
+def parseOp (s : String) : Op :=
+  match words s with
+  | ["put", k, v] => match ofHex? k, ofHex? v with
+    | some k, some v => .put k v
+    | _, _ => .bad
+  | ["del", k] => match ofHex? k with | some k => .del k | none => .bad
+  | ["get", k] => match ofHex? k with | some k => .get k | none => .bad
+  | ["commit"] => .commit
+  | ["reopen"] => .reopen
+  | _ => .bad
+
+def Op.isBad : Op → Bool
+  | .bad => true
+  | _ => false
+
+/-- `ver|op;op;…` -/
+def parseLine (line : String) : Option (Ver × List Op) :=
+  match line.splitOn "|" with
+  | [ver, body] =>
+    let ops := (body.splitOn ";").map parseOp
+    if ops.any Op.isBad then none
+    else if ver == "0" then some (Ver.v0, ops)
+    else if ver == "1" then some (Ver.v1, ops)
+    else none
+  | _ => none
 
 end Gossamer.C06
